@@ -168,6 +168,8 @@ class C06Monitor(Monitor):
         self.cbf: dict[tuple, dict] = {}    # (station, gen, mid, sn) -> {"first": t, "dup": t|None}
         self.tx_per_packet: dict[tuple, int] = {}
         self.restarts = 0
+        self.seen_sn: dict[tuple, set] = {}
+        self.last_sn: dict[tuple, int] = {}
 
     def before_rx(self, sim, rec):
         rec["gn0"] = len(sim.hist.gnind)
@@ -202,8 +204,16 @@ class C06Monitor(Monitor):
             if new_tx:
                 sim.violate(ID, "forwarded-own", key, f"station {st.idx} transmitted after receiving a {typ} bearing its own address")
         elif rec.get("dpl") == "stale":
-            sim.probe("replay-after-window")
+            sim.probe("replay-after-locte-margin")
         elif rec.get("dpl") == "fresh":
+            seen = self.seen_sn.setdefault(ck[:3], set())
+            if p["sn"] in seen:
+                sim.probe("replay-after-window")       # same SN accepted again after the DPL ring moved on
+            seen.add(p["sn"])
+            last = self.last_sn.get(ck[:3])
+            if last is not None and p["sn"] < last and last - p["sn"] > 60000:
+                sim.probe("sn-wrapped-injected")
+            self.last_sn[ck[:3]] = p["sn"]
             if rhl <= 1 and not fwd_now:
                 sim.probe("rhl<=1-not-forwarded")
             if typ in ("GBC", "GAC") and alg == "CBF" and rhl >= 2 and not fwd_now:
